@@ -38,6 +38,14 @@ Definition send_sdu (mtu : nat) (cid : N) (data : bytes) : list frag :=
 Definition llid_of_fragment (f : bool) : N := if f then 1 else 2.
 Definition fragment_of_llid (llid : N) : bool := N.eqb llid 1.
 
+(** A link-layer data PDU as the PHY sees it: (LLID, payload).  [on_l2cap_send_data]
+    wraps each L2CAP message; [on_data_pdu] unwraps it on the peer. *)
+Definition llpdu := (N * bytes)%type.
+Definition to_ll (f : frag) : llpdu := (llid_of_fragment (fst f), snd f).
+Definition of_ll (p : llpdu) : frag := (fragment_of_llid (fst p), snd p).
+Definition send_sdu_ll (mtu : nat) (cid : N) (data : bytes) : list llpdu :=
+  map to_ll (send_sdu mtu cid data).
+
 (** ---- receiver ---- *)
 
 Record rx := { fifo : option bytes; expected : nat }.
@@ -87,6 +95,9 @@ Definition deliverable (cid : N) (sdu : bytes) : list (N * bytes) :=
   | _ => if N.eqb cid 4 then [(4%N, sdu)] else if N.eqb cid 6 then [(6%N, sdu)] else []
   end.
 
+Definition recv_all_ll (st : rx) (ps : list llpdu) : list (N * bytes) * rx :=
+  recv_all st (map of_ll ps).
+
 (** ---- correspondence entry points (evaluated by the harness) ---- *)
 
 (** sender case: (mtu, cid, sdu, observed fragments) *)
@@ -110,3 +121,15 @@ Fixpoint outs_eqb (a b : list (N * bytes)) : bool :=
 (** receiver case: (fragments fed in order, observed deliveries (cid, bytes)) *)
 Definition check_recv (c : list frag * list (N * bytes)) : bool :=
   let '(fs, obs) := c in outs_eqb (fst (recv_all rx_init fs)) obs.
+
+(** link-layer level cases (real LinkLayer + L2CAPLayer): observed (LLID, payload) lists *)
+Fixpoint lls_eqb (a b : list llpdu) : bool :=
+  match a, b with
+  | [], [] => true
+  | (l1, d1) :: a', (l2, d2) :: b' => N.eqb l1 l2 && bytes_eqb d1 d2 && lls_eqb a' b'
+  | _, _ => false
+  end.
+Definition check_send_ll (c : nat * N * bytes * list llpdu) : bool :=
+  let '(mtu, cid, sdu, obs) := c in lls_eqb (send_sdu_ll mtu cid sdu) obs.
+Definition check_recv_ll (c : list llpdu * list (N * bytes)) : bool :=
+  let '(ps, obs) := c in outs_eqb (fst (recv_all_ll rx_init ps)) obs.
